@@ -239,6 +239,22 @@ class CUnit:
                     kfids.append((kfid, region is None))
             if ob.status is None:
                 discharge(ob, timeout_s)
+            cs = self.options.get("case_split")
+            if ob.status == "unknown" and cs:
+                # finite case split on a small-domain input (contract option): every case must be discharged
+                name, values = cs
+                term = getattr(e, name)
+                all_ok = True
+                for v in values:
+                    sub = Obligation(ob.name, ob.kind, ob.path + [term == v], ob.goal)
+                    discharge(sub, timeout_s)
+                    if sub.status != "proved":
+                        all_ok = False
+                        if sub.status == "failed":
+                            ob.status, ob.model, ob.backend = "failed", sub.model, sub.backend
+                        break
+                if all_ok:
+                    ob.status, ob.backend = "proved", "z3-api/case-split(%s in %d values)" % (name, len(values))
             d = ob.short()
             d["model"] = ob.model
             d["note"] = ob.note
